@@ -57,8 +57,9 @@ PM_CLASSES = [
      'map_keys keeps the type of the input object (known field names unchanged) although the closure renames the keys: map_keys({"a": 1}) -> |k| { upcase(k) } is typed { a: integer } and returns {"A": 1}'),
     ('del-on-variable-path-not-typed', lambda cl, last, prev: last.startswith(('del(x', 'del(y', 'x = del(x', 'x = del(y')),
      'del() on a variable path removes the value at runtime but the variable keeps its old type (and constant): `x = {"b": 1}; del(x.b)` leaves x typed { b: integer } holding {}'),
-    ('block-scoped-variable-leak', lambda cl, last, prev: any(p.startswith(('{ x =', 'if .c == true { x', 'y = { x')) for p in prev) and last.startswith(('x.q, err', 'x[', 'x.b')),
-     'a variable first bound inside a block is invisible to the compiler after the block but stays in the runtime store; a later path assignment `x[2] = 1` / `x.q, err = …` is typed as creating a fresh container while it updates the leaked value'),
+    ('block-scoped-variable-leak', lambda cl, last, prev: (any(p.startswith(('{ x =', 'if .c == true { x', 'y = { x')) for p in prev) and last.startswith(('x.q, err', 'x[', 'x.b')))
+        or (last == 'z = (.c == true && (x = true))' and any(('{ x =' in p or '; x =' in p or '{ x,' in p) for p in prev)),
+     'a variable first bound inside a block is invisible to the compiler after the block but stays in the runtime store; a later path assignment `x[2] = 1` / `x.q, err = …` is typed as creating a fresh container while it updates the leaked value, and a later conditional binding `.c == true && (x = true)` is typed boolean or null while the leaked value survives when the binding is skipped'),
     ('negative-index-typing', lambda cl, last, prev: '[-' in last,
      'Kind::insert/remove with a negative index assume the array length they can prove (and pad at the wrong end past the front): `x = [1, "s"]; x[-3] = 1` types x as [integer, string, null] while it holds [1, 1, "s"] (pinned by value::kind::crud::insert::tests::test_insert)'),
     ('slice-type_def', lambda cl, last, prev: 'slice(' in last,
@@ -72,8 +73,8 @@ PM_CLASSES = [
     ('map_values-on-variable', lambda cl, last, prev: False, ''),
     ('negative-index-typing', lambda cl, last, prev: any('[-' in p for p in prev),
      'Kind::insert/remove with a negative index assume the array length they can prove (and pad at the wrong end past the front): `x = [1, "s"]; x[-3] = 1` types x as [integer, string, null] while it holds [1, 1, "s"] (pinned by value::kind::crud::insert::tests::test_insert)'),
-    ('path-insert-into-union-of-containers', lambda cl, last, prev: last.startswith(('x[', 'x.', 'y[', 'y.')) and any(p.startswith('if (') for p in prev),
-     'Kind::insert on a kind that is a UNION of an array and an object (variable assigned different containers in the two branches of an if) keeps the known elements of the matching alternative as required although the value may have been the other alternative and is rebuilt from scratch: `if (x = [1]; .c == true) { x = {} } else { y = x }; x[2] = 1` holds [null, null, 1], typed [integer, null, integer] (same root cause as C19 insert-into-non-container-alternative)'),
+    ('path-insert-into-union-of-containers', lambda cl, last, prev: (last.startswith(('x[', 'x.', 'y[', 'y.')) or last.startswith(('if .c == true { x.', 'if .c == true { x['))) and any(p.startswith('if (') or '&& { x = ' in p or '|| { x = ' in p for p in prev),
+     'Kind::insert on a kind that is a UNION of an array and an object (variable assigned different containers in the two branches of an if) keeps the known elements of the matching alternative as required although the value may have been the other alternative and is rebuilt from scratch: `if (x = [1]; .c == true) { x = {} } else { y = x }; x[2] = 1` holds [null, null, 1], typed [integer, null, integer]; likewise for a union of a container and a scalar: `x = {"c": 1}; z = (.c == true && { x = "s"; true }); x.b = 2` holds {"b": 2}, typed { b: integer, c: integer } (same root cause as C19 insert-into-non-container-alternative)'),
     ('conditional-mutation-then-index-crud', lambda cl, last, prev: any(p.startswith('if .c == true {') for p in prev),
      'after a conditional mutation the merged array/object type keeps per-index knowledge (`[string or integer, boolean or undefined]`, `integer or array`) that later index insert/delete/push/compact operations treat as exact: elements end up at other positions than their types'),
 ]
